@@ -9,7 +9,10 @@
 (*                                                                         *)
 (* Faults (C19): Scn.fault = [kind, at]: the downlink message with index   *)
 (* `at` is replaced by closing the association ("close") or by bytes that  *)
-(* Per!PerDecode rejects ("garbage").                                      *)
+(* Per!PerDecode rejects ("garbage").  Optionally (Fault.pre, an index     *)
+(* below `at` of a message whose content the emulator ignores) that        *)
+(* earlier message is undecodable as well: tolerating it must not make the *)
+(* emulator tolerant of the fault that follows.                            *)
 (***************************************************************************)
 EXTENDS Amf, IOUtils, FiniteSets
 CONSTANTS Online,      \* TRUE: talk to the pump; FALSE: replay LogPath
@@ -37,7 +40,9 @@ SendOne(i, bytes) ==
    ELSE IF Fault.kind = "close" /\ i >= Fault.at
         THEN IOExec(<<PumpBin, "ctl", "-sock", Sock, "close", ToString(i)>>).exitValue = 0
         ELSE LET f == WorkDir \o "/dl" \o ToString(i) \o ".json"
-                 b == IF Fault.kind = "garbage" /\ i = Fault.at THEN Garbage(bytes) ELSE bytes
+                 b == IF Fault.kind = "garbage" /\ i = Fault.at THEN Garbage(bytes)
+                      ELSE IF "pre" \in DOMAIN Fault /\ i = Fault.pre THEN Fault.prebytes   \* an ignored message is undecodable too (see above)
+                      ELSE bytes
              IN JsonSerialize(f, [bytes |-> b]) /\ IOExec(<<PumpBin, "ctl", "-sock", Sock, "send", ToString(i), f>>).exitValue = 0
 RECURSIVE SendAll(_, _)
 SendAll(i, outs) == IF Len(outs) = 0 THEN TRUE ELSE SendOne(i, Head(outs)) /\ SendAll(i + 1, Tail(outs))
@@ -123,6 +128,7 @@ FinalNormal ==
 FinalFault ==
    (IF Fault.kind = "garbage" /\ ~("cut" \in DOMAIN Fault /\ Fault.cut > 0) /\ NgapDecode(Fault.bytes).ok THEN {"HARNESS: the garbage is a decodable NGAP PDU for the specification"} ELSE {})
    \cup (IF j > Fault.at THEN {} ELSE {"HARNESS: the run ended before the fault point was reached"})
+   \cup (IF "pre" \in DOMAIN Fault /\ (Fault.pre >= Fault.at \/ NgapDecode(Fault.prebytes).ok) THEN {"HARNESS: the earlier undecodable message is misplaced or decodable"} ELSE {})
    \cup (IF result.kind = "exit" THEN {} ELSE {"the emulator hangs after the fault (no exit within the deadline)"})
    \cup (IF result.kind = "exit" /\ result.code = 0 THEN {"exit status 0 after the fault"} ELSE {})
    \cup (IF result.kind = "exit" /\ result.banner THEN {"completion banner printed after the fault"} ELSE {})
